@@ -1,10 +1,19 @@
 PROPERTY = "C14"
+ENCODED = ["linux::module_reader::ProcessMemory::{read (Slice), absolute}", "module_reader::section_header_with_name", "ModuleReader::read_name_from_strtab", "module_reader::build_id_from_bytes", "module_reader::is_executable_section",
+           "thorough: BuildId::read_from_module / SoName::read_from_module (all strategies, goblin header/program-header/note/dynamic parsing) on the repo's concrete TINY_ELF"]
+BOUNDS = {"layer A": "crate-own arithmetic and lookups on directly constructed goblin section headers (every field symbolic) and symbolic 48-byte images; XOR fold for lengths 0, 1, 16, 17, 40; "
+                     "string-table lookups: every out-of-range/overflowing (table offset, table size, name offset), and concrete in-range offsets over 4 symbolic bytes",
+          "layer B (thorough)": "the repo's own 785-byte test image, every byte concrete; expected build id and SONAME computed by an independent reader (lib/elfmini.py) when the overlay is built"}
+OUTSIDE = ["goblin parsing of symbolic bytes (even 64-byte images exceeded 8-16 GB in the design round): 'for any byte image ... without panicking' is decided for the crate's own arithmetic only",
+           "the DT_SONAME/DT_STRTAB/DT_STRSZ selection in soname_from_program_headers and soname_from_sections (reached only through goblin parsing)", "32-bit and big-endian images", "every ELF file installed on the machine (sampling, not this family)",
+           "memory-vs-file agreement against a live process"]
+ASSUMPTIONS = ["sh_name <= u32::MAX (it is a u32 in the file, widened by goblin)", "name_offset < strtab_size for read_name_from_strtab (asserted by the function; both callers check it)", "std::fmt::format stubbed"]
 HARNESSES = [
     H("c14_module_reader::c14_slice_read", desc="ProcessMemory::Slice::read for all (offset, length)"),
     H("c14_module_reader::c14_section_header_with_name_dynstr", desc="section lookup by name, 2 symbolic headers", timeout=1200),
     H("c14_module_reader::c14_section_header_with_name_short", desc="section lookup, 3-byte name", timeout=1200),
-    H("c14_module_reader::c14_read_name_from_strtab_out_of_range", desc="string-table name lookup: every out-of-range / overflowing offset is an error", timeout=1200),
-    H("c14_module_reader::c14_read_name_from_strtab_in_range", desc="string-table name lookup: concrete offsets, symbolic bytes", timeout=1200),
+    H("c14_module_reader::c14_read_name_from_strtab_out_of_range", desc="string-table name lookup: every out-of-range / overflowing offset is an error", timeout=3000, tier="thorough", est_gb=20, mem_gb=40),
+    H("c14_module_reader::c14_read_name_from_strtab_in_range", desc="string-table name lookup: concrete offsets, symbolic bytes", timeout=3000, tier="thorough", est_gb=20, mem_gb=40),
     H("c14_module_reader::c14_build_id_fold_len0", desc="XOR fold, empty"), H("c14_module_reader::c14_build_id_fold_len1", desc="XOR fold, 1 byte"),
     H("c14_module_reader::c14_build_id_fold_len16", desc="XOR fold, 16"), H("c14_module_reader::c14_build_id_fold_len17", desc="XOR fold, 17"),
     H("c14_module_reader::c14_build_id_fold_len40", desc="XOR fold, 40"),
